@@ -87,8 +87,22 @@ CLAIMED["C10"] = {
 }
 CLAIMED["C12"] = {
     "category": "proof",
-    "text": "kv.execute_one_plan returns at most plan.limit events (loop invariant count == len(events) <= limit on every path, including failing scans) and only events the matcher yielded. SQL: see C01 (the LIMIT literal) -- build_query is being added.",
-    "note": "Not covered yet: planner caps the limit at max_limit (fixed in 6e3c27b, unit pending), newest-first order of the scans (bounded check planned), the SQL statement's single LIMIT for several filters (known issue, not yet an obligation).",
+    "text": "kv.execute_one_plan returns at most plan.limit events (loop invariant count == len(events) <= limit on every path, including failing scans) and only events the matcher yielded. The recency clause and the SQL backend are decided by a BOUNDED stand-in only (see C02 for the scope): with limits 0, 1, 2 at most that many events come back, no left-out matching event is newer than a returned one, a limit above the number of matches truncates nothing; two-filter REQs respect each filter's own limit.",
+    "note": "The bounded part is reported under coverage.bounded and is not counted among the proved obligations. Not covered yet by a contract: planner's cap at max_limit (fixed in 6e3c27b; exercised by the witness only), build_query's LIMIT literal. Listed findings: LMDB multi-value / chained plans are not newest-first across values; the SQL statement has one LIMIT for all filters of a REQ. Fixed: SQL limit 0 (1c677d1), LMDB cap (6e3c27b).",
 }
 
+_BOUNDED = ("BOUNDED STAND-IN, not a proof: kv.Index.scanner is a generator closure over an LMDB cursor and the SQL answer is computed by the engine; "
+            "neither is within reach of the contract verifier, so the clause is decided for a stated small scope only by running the real functions: ")
+CLAIMED["C02"] = {
+    "category": "exploration",
+    "text": _BOUNDED + "every store of <= 2 (quick) / <= 3 (thorough) events out of a 29-event universe built around the byte-order neighbours the property names (ids/pubkeys starting 00/7f/ff, kinds 0/1/2/256, tag values ''/'a'/'ab'/'b', shared timestamps, one event with two values of a tag) x 227 filters (single/multi-value ids, authors, kinds, author+kind, tags, chained indexes, 8 time windows) x 120 two-filter REQs, on both backends: every stored event matching the filter and strictly inside the window is returned, exactly once per filter, and between one and k times for a k-filter REQ. Real kv.planner / Index.scanner / MultiIndex.scanner / matcher / execute_one_plan over the in-memory lmdb stand-in; real DBStorage.add_event and Subscription.build_query over sqlite.",
+    "note": "Exhaustive within the stated bound, nothing beyond it; never counted as proved. Deductive parts that carry pieces of this property are claimed elsewhere: C12 (execute_one_plan count/limit), C01 (residual predicate compiled only from validated literals), C10 (Index.write exactness: which keys exist). Six genuine LMDB defects found by this check were repaired (fix commits b2adb33, 98c6381, b2dfdd3, 32cc593, e0dd6ce, 8d7589f); one SQL defect is a listed finding (one LIMIT for all filters of a REQ).",
+    "technique": "bounded stand-in for contract-based verification (exhaustive small-scope enumeration of the real code against an independent oracle); labelled bounded",
+}
+CLAIMED["C11"] = {
+    "category": "exploration",
+    "text": _BOUNDED + "same universe, stores and filters as C02, on both backends: (a) for every store S, every event x of S and every filter that x definitely does not match, the answer over S equals the answer over S minus x; (b) for every pair of filters where one demands at least what the other demands (extra condition, value subset, narrower window), the stronger filter's answer is a subset; (c) a multi-valued condition returns exactly the union of its single values.",
+    "note": "Exhaustive within the stated bound, nothing beyond it; never counted as proved. Two genuine LMDB defects in exactly this area were found and repaired (32cc593 scan started inside the keys of longer values, 8d7589f exclusive created_at bounds).",
+    "technique": "bounded stand-in for contract-based verification (exhaustive small-scope enumeration of the real code, metamorphic relations between paired runs); labelled bounded",
+}
 NOT_APPLICABLE = {}
